@@ -48,7 +48,10 @@ RULE = ("every schedule with <= B pre-emptions (one player: B=2 quick, 3 thoroug
         "pre-emptions, and 20 % of the random coarse cases): the (n+1)-th write of a device stream raises; pa.open raising: "
         "extra_checks (differential: the history with the failing call vs the history without it).  With-blocks left "
         "normally / by an exception.  Recording histories (entry rec: REC_HISTORIES x 3 call shapes + random histories of "
-        "record / take / stop / close, 1-4 streams, takes past the end, calls after close)")
+        "record / take / stop / close, 1-4 streams, takes past the end, calls after close).  Mixed histories (entry mix: "
+        "MIX_FAMILIES x wait in {T,F}, every schedule with <= 2 pre-emptions, plus random walks over random mixed scripts): "
+        "record() calls, play calls whose pa.open raises, a terminate() that raises, in the same history as 1-3 player threads "
+        "with pause / resume / stop / join and one or two close calls")
 TRUSTED = [
     "hand-written Lean transition system ALV/Model/C17.lean of AudioIO.play/close/thread_finished and "
     "AudioThread.run/stop/pause/play (modelled, not verified); atomicity = one threading/backend operation plus the "
@@ -67,11 +70,17 @@ TRUSTED = [
     "keyword arguments the fake backend received; record(): the expected pa.open arguments are computed in props/c17.py",
     "recording histories: hand-written ALV/Model/C17Rec.lean (RecStream generator, AudioIO.record / recording_finished / "
     "the recordings loop of close) in its INTENDED behaviour, tied call by call (results of every take, reads issued, "
-    "device streams closed, _recordings, terminate); the fake input device delivers devChunk; the code under test "
-    "deviates from it on one class of histories (known finding D22), recognised by the model-side predicate "
-    "Driver/C17.lean:finishesLater",
-    "failed pa.open: no model; extra_checks compares the real code with itself (history with the failing play call vs "
-    "the history without it: log, what every stream received, manager state)",
+    "device streams closed, _recordings, terminate); the fake input device delivers devChunk; since c60d4c5 (D26: "
+    "recording_finished removes by identity) the code under test follows it on every history, and a call that raises "
+    "where the model has none is a model AND a spec disagreement (the model-side predicate Driver/C17.lean:finishesLater "
+    "only names a return of D26 in the signature)",
+    "mixed histories: hand-written ALV/Model/C17Mix.lean, a layer over the coarse system that leaves it untouched (record() = "
+    "one pa.open; a play whose pa.open raises = lock, go.set, pa.open, release, with the lock as the flag `shadow`; close() "
+    "closes the listed recordings, the last one first, between its loop over _threads and terminate; a raising terminate changes "
+    "only what the caller of close sees), tied step by step like the coarse system (labels with the thread-object and "
+    "device-stream numbering of the run: tix / six), proved to refine the coarse system (mix_refines); recordings in mixed "
+    "histories are only created and closed (take / stop are main-thread-only and tied by the rec entry).  extra_checks still "
+    "compares the real code with itself on failed opens (history with the failing play call vs the history without it)",
     "harness/sched.py (deterministic scheduler in place of `threading`) and harness/fakeaudio.py (fake pyaudio/_portaudio "
     "with the PortAudio stream protocol, fault injection, an input device, host API infos); CPython `threading` semantics "
     "assumed, attribute reads/writes between two yield points are taken as atomic (GIL)",
@@ -82,10 +91,16 @@ ASSUMPTIONS = [
     "possibly raising after their samples), samples (ints, floats, Fractions, exactly representable in float32) and the "
     "float zero padding packable in the sample format (dfmt 'f'; 'i'/'h' only with whole chunks), channels 1 or 2 by the "
     "`channels` keyword (the deprecated `nchannels` alias is not exercised); recording streams: one channel, dfmt 'f', "
-    "chunk_size > 0, histories of the control thread alone (no player threads in the same history)",
-    "backends: PyAudio-compatible; a write that raises is covered (the thread still closes its stream); an open that "
-    "raises is covered by the differential extra check; a backend whose stream.close() or terminate() raises is NOT "
-    "covered (thread_finished would be skipped / close() would propagate the error)",
+    "chunk_size > 0; take / stop in histories of the control thread alone (entry rec), record() and the draining by close() also "
+    "in the same history as player threads (entry mix; no record() after close there: the backend refuses pa.open after "
+    "terminate)",
+    "backends: PyAudio-compatible; a write that raises is covered (the thread still closes its stream); an open that raises "
+    "inside play and a terminate() that raises are modelled and tied (entry mix; theorems open_failure_leaves_no_trace, "
+    "raising_terminate_changes_nothing); a backend whose stream.close() raises is NOT in the model and NOT generated: on the "
+    "real code (fake backend, faults close) the player thread dies in its epilogue before thread_finished, stays in _threads, and "
+    "close() spins for ever, wait true or false (the shape of D21) - reported as finding D28 with "
+    "proposed_fixes/D28-stream-close-raises-close-spins.diff (try/finally around stream.close(): close() then returns, raising "
+    "AssertionError because the backend left a stream open)",
     "fine-grained system (Lean, all schedules, any number of players, per-player chunk sizes): "
     "fine_assembly_own_samples (every configuration, raising iterables included: stream ++ buffer ++ unpulled = the "
     "player's own audio, buffer <= cs, chunks of exactly cs samples); under Sound (run has its try/finally, or no "
@@ -111,10 +126,15 @@ ASSUMPTIONS = [
     "wait_close_delivers_all (wait=True, no stop() call in the script: when close has returned every stream received its "
     "whole chunk sequence)",
     "call shapes (Lean): play_defaults, play_omitted_is_default, explicit_device_wins, frames_per_write; recording "
-    "streams (Lean, all histories): rec_delivered_in_order, rec_manager_invariant, rec_closed_after_close",
+    "streams (Lean, all histories): rec_delivered_in_order, rec_manager_invariant, rec_closed_after_close, rec_remove_by_identity; "
+    "the spec functions themselves: chunks_are_the_spec (chunksOf = chunksSpec = the ONLY sequence of cs-sample chunks whose "
+    "concatenation is the padded audio), delivered_is_spec / fine_delivered_is_spec (deliveredOK holds in every reachable state), "
+    "pull_moves_one_sample; mixed histories (Lean, all schedules): mix_refines, mix_delivered, mix_closed_after (both kinds of "
+    "stream closed, terminate exactly once), mix_recordings_invariant, mix_shutdown (nobody alive), open_failure_leaves_no_trace, "
+    "raising_terminate_changes_nothing; liveness of the mixed system is NOT proved (the extra calls only block on the manager "
+    "lock, whose holder is always enabled: manager_lock_never_blocks) - the tie compares done / deadlock on every explored schedule",
     "NOT claimed: close(wait=True) with a player paused at that time blocks for ever (known finding D10b; model-level "
-    "theorems deadlock_pause_close_wait, deadlock_pause_close_wait_fixed); close() / take() with two or more active "
-    "recording streams raises TypeError (known finding D22, proposed fix D22-recording-finished-remove-by-identity.diff); "
+    "theorems deadlock_pause_close_wait, deadlock_pause_close_wait_fixed); "
     "the tie still carries liveness on the explored schedules of the real code (outcome done/deadlock compared step by "
     "step with the model)",
 ]
@@ -135,8 +155,9 @@ MANIFEST = {
             "(CPython threading semantics assumed); the models are hand written and validated against the code step by "
             "step along every explored schedule / call by call along every recording history, not extracted from it.  No "
             "PENDING statement.  Known findings excluded by explicit hypotheses / recognised signatures: wait=True with a "
-            "paused player (D10b), the last lock release of a player that left _threads before close looked (D15), close / "
-            "take with two active recording streams (D22, proposed fix).",
+            "paused player (D10b), the last lock release of a player that left _threads before close looked (D15).  "
+            "D26 (close / take with two active recording streams raised TypeError) is repaired in /repo (c60d4c5) and "
+            "compared strictly.",
     "technique": "interleaving transition system in Lean 4 with inductive invariants over all schedules and a ranking "
                  "function for termination; step-by-step bisimulation against the real code under a deterministic scheduler",
 }
@@ -246,6 +267,29 @@ def call_of(c, cmd):
 
 def samples_per_chunk(c, cmd):
     return play_opts(c, cmd)[0] * (shape_of(c)["channels"] or 1)
+
+
+def is_mix(c):
+    return c.get("entry") == "mix"
+
+
+def open_faults(c):
+    """ordinals of the pa.open calls that raise: the play calls marked {"openfail": true} (a play on a
+    finished manager raises ThreadError before it opens anything; a record() after terminate is refused
+    by the backend before the call counts)"""
+    out, n, closed = [], 0, False
+    for cmd in full_script(c):
+        if cmd[0] == "play":
+            if not closed:
+                if len(cmd) > 2 and cmd[2].get("openfail"):
+                    out.append(n)
+                n += 1
+        elif cmd[0] == "record":
+            if not closed:
+                n += 1
+        elif cmd[0] == "close":
+            closed = True
+    return out
 
 
 def write_faults(c):
@@ -391,7 +435,9 @@ def run_case(c, pinned=False):
     S = sched.Scheduler(c.get("schedule", ()), BUDGET, namer)
     be.owner = S
     sh = shape_of(c)
-    be.faults = {"write": write_faults(c), "open": list((c.get("faults") or {}).get("open", []))}
+    be.faults = {"write": write_faults(c), "open": list((c.get("faults") or {}).get("open", [])) + open_faults(c),
+                 "terminate": bool((c.get("faults") or {}).get("terminate")),
+                 "close": list((c.get("faults") or {}).get("close", []))}
     be.apis = [dict(a) for a in API_INFOS] if sh["api"] else []
 
     # the played objects (built outside the scheduled world: no yield point)
@@ -420,7 +466,8 @@ def run_case(c, pinned=False):
         return shared[g][how]
 
     def snapshot(io):
-        return [[bool(th._alive_now()) for th in S.thread_objs], len(io._pa._streams)]
+        # (a thread object whose pa.open raised was never started: it is no player thread)
+        return [[bool(th._alive_now()) for th in S.thread_objs if th._rec is not None], len(io._pa._streams)]
 
     def body(io):
         nplay = 0
@@ -446,6 +493,16 @@ def run_case(c, pinned=False):
                 elif op == "close":
                     getattr(io, sh["close_how"])()
                     ctx["log"].append(["close", "ok"] + snapshot(io))
+                elif op == "record":
+                    ctx["started"].append({"m": None, "rec": True, "cs": cmd[1], "frames": cmd[1], "dfmt": "f",
+                                           "fail": False, "scale": 1})
+                    try:
+                        r = io.record(chunk_size=cmd[1])
+                    except Exception:
+                        ctx["started"].pop()
+                        raise
+                    ctx.setdefault("recs", []).append(r)
+                    ctx["log"].append(["record", "ok"])
                 else:
                     i = cmd[1]
                     if i >= len(ctx["ths"]):
@@ -500,6 +557,7 @@ def run_case(c, pinned=False):
                 "m": None, "cs": c["cs"], "frames": c["cs"], "dfmt": "f", "fail": False, "scale": 1}
             wf = be.faults["write"].get(k)
             sts.append({"written": [decode(d, info["cs"], info["dfmt"], info["scale"]) for d, _n in st.writes],
+                        "input": bool(info.get("rec")), "closes": st.calls.count("close"), "reads": len(st.reads),
                         "nframes": sorted({n for _d, n in st.writes}),
                         "state": st.state, "m": info["m"], "cs": info["cs"], "frames": info["frames"],
                         "dfmt": info["dfmt"], "fail": info["fail"],
@@ -508,8 +566,10 @@ def run_case(c, pinned=False):
         obs.update({
             "log": [list(e) for e in ctx["log"]],
             "streams": sts,
-            "alive": [bool(th._alive_now()) for th in S.thread_objs],
-            "halting": [bool(getattr(th, "halting", False)) for th in S.thread_objs],
+            "alive": [bool(th._alive_now()) for th in S.thread_objs if th._rec is not None],
+            "halting": [bool(getattr(th, "halting", False)) for th in S.thread_objs if th._rec is not None],
+            "ghosts": sum(1 for th in S.thread_objs if th._rec is None),
+            "recordings": len(getattr(io, "_recordings", [])) if io is not None else 0,
             "terminates": be.terminates,
             "opens": be.opens,
             "finished": bool(getattr(io, "finished", False)) if io is not None else False,
@@ -598,6 +658,8 @@ def key(c):
     k = [c["script"], c["wait"], c["cs"], bool(c.get("with")) + 2 * bool(c.get("with_raise")), c.get("schedule", [])]
     if is_fine(c):
         k += ["fine", c.get("strategy", "struct"), c.get("sources", [])]
+    if is_mix(c):
+        k += ["mix"]
     if c.get("shape") or c.get("faults"):
         k += [c.get("shape") or {}, c.get("faults") or {}]
     return common.json.dumps(k, sort_keys=True)
@@ -880,6 +942,61 @@ FAULT_FAMILIES = [
 ]
 
 
+# mixed histories (entry "mix"): record() calls, play calls whose pa.open raises ({"openfail": true}) and a
+# terminate() that raises, in the same history as the player threads
+_OF = {"openfail": True}
+MIX_FAMILIES = [
+    ([["record", 2], ["play", 3], ["close"]], False),
+    ([["play", 3], ["record", 2], ["play", 2], ["record", 1], ["close"]], False),
+    ([["play", 3], ["play", 2, _OF], ["play", 2], ["close"]], False),
+    ([["record", 1], ["play", 3], ["pause", 0], ["resume", 0], ["play", 1, _OF], ["close"], ["play", 1], ["close"]], False),
+    ([["play", 3], ["record", 2], ["close"]], True),
+    ([["record", 1], ["play", 2, _OF], ["play", 2], ["stop", 0], ["close"], ["play", 2, _OF], ["close"]], True),
+    ([["play", 2], ["play", 3], ["play", 1, _OF], ["record", 2], ["join", 0], ["close"]], False),
+    ([["play", 1], ["pause", 7], ["record", 2], ["play", 4, _OF], ["close"]], False),
+]
+
+
+def random_mix_cfg(rng):
+    script, nplayers = [], 0
+    for _ in range(rng.randint(2, 6)):
+        r = rng.random()
+        if r < 0.3:
+            script.append(["play", rng.randint(0, 5)])
+            nplayers += 1
+        elif r < 0.5:
+            script.append(["record", rng.choice([1, 2, 3])])
+        elif r < 0.7:
+            script.append(["play", rng.randint(0, 3), dict(_OF)])
+        elif nplayers:
+            script.append([rng.choice(["pause", "resume", "stop", "join"]), rng.randrange(nplayers + (rng.random() < 0.1))])
+        else:
+            script.append(["record", 2])
+    # (no record() after close: the backend refuses pa.open after terminate — a protocol error by itself)
+    script.append(["close"])
+    if rng.random() < 0.3:
+        script.append(rng.choice([["play", 2], ["play", 1, dict(_OF)], ["close"]]))
+    cfg = {"entry": "mix", "script": script, "wait": rng.random() < 0.5, "cs": rng.choice([1, 2, 3]), "with": False}
+    if rng.random() < 0.3:
+        cfg["faults"] = {"terminate": True}
+    return cfg
+
+
+def generate_mix(rng, tier, scale):
+    quick = tier == "quick"
+    cases = []
+    if scale == 1:
+        for h, termfail in MIX_FAMILIES:
+            for wait in (False, True):
+                cfg = {"entry": "mix", "script": [list(x) for x in h], "wait": wait, "cs": 2, "with": False}
+                if termfail:
+                    cfg["faults"] = {"terminate": True}
+                cases += explore(cfg, 2, 130 if quick else 4000)
+    for _ in range((50 if quick else 1500) * scale):
+        cases += random_walks(random_mix_cfg(rng), rng, 2)
+    return cases
+
+
 def _resize(script, rng, lo, hi):
     return [[c[0], rng.randint(lo, hi)] if c[0] == "play" else list(c) for c in script]
 
@@ -941,6 +1058,7 @@ def generate(rng, tier, scale=1):
                 cfg["faults"] = {"write": {str(rng.randrange(2)): rng.randint(0, 3)}}
             cases += random_walks(cfg, rng, 2)
         cases += generate_fine(rng, tier, scale)
+        cases += generate_mix(rng, tier, scale)
     # recording histories
     if scale == 1:
         for h in REC_HISTORIES:
@@ -1138,8 +1256,11 @@ def rec_model_problems(c, io, drv):
     out = []
     m = drv["model"]
     if io["aborted"] is not None:
-        # the history stopped at an exception the model does not have: only what came before counts
+        # the history stopped at an exception the model does not have (the model is total: no call of
+        # a recording history raises, apart from record() after terminate): a disagreement in itself
         j = io["aborted"]
+        out.append("call %d (%s) raised %s, the model has %r there" % (
+            j, io["log"][-1][0], io["log"][-1][1], m["log"][j] if j < len(m["log"]) else None))
         if io["log"][:j] != m["log"][:j]:
             out.append("log before the exception: impl %r model %r" % (io["log"][:j], m["log"][:j]))
         return out
@@ -1242,7 +1363,12 @@ def request_for(c, chosen):
     sh = shape_of(c)
     wf = write_faults(c)
     for cmd in full_script(c):
-        if cmd[0] == "play":
+        if cmd[0] == "play" and len(cmd) > 2 and cmd[2].get("openfail"):
+            script.append(["playfail"])          # no player: the model's extra call (ALV.Model.C17Mix)
+            m += 1
+        elif cmd[0] == "record":
+            script.append(["record", cmd[1]])
+        elif cmd[0] == "play":
             cs, _dfmt, _src, fail = play_opts(c, cmd)
             audio = audio_of(c, m, cmd)
             spc = samples_per_chunk(c, cmd)
@@ -1266,6 +1392,8 @@ def request_for(c, chosen):
          "apiOut": API_INFOS[1]["defaultOutputDevice"] if sh["api"] else None}
     if is_fine(c):
         r.update({"dieFixed": die_variant() == "fixed"})
+    if is_mix(c):
+        r.update({"termFails": bool((c.get("faults") or {}).get("terminate"))})
     return r
 
 
@@ -1294,8 +1422,20 @@ def spec_problems(c, io, drv):
     # stream k belongs to the k-th play call that was not refused (run_case records its ordinal, its
     # chunk size and its sample format; a call interrupted by the end of the run may have opened its
     # stream already)
+    plays_all = [x for x in full_script(c) if x[0] == "play"]
+    failing = [i for i, x in enumerate(plays_all) if len(x) > 2 and x[2].get("openfail")]
+    termfail = bool((c.get("faults") or {}).get("terminate"))
     for k, st in enumerate(io["streams"]):
+        if st.get("input"):
+            # a recording's device stream: never written to; closed exactly once by close()
+            if st["written"]:
+                out.append(("delivered", "input stream %d was written to" % k))
+            if st["closes"] > 1:
+                out.append(("rec-closed-twice", "input stream %d closed %d times" % (k, st["closes"])))
+            continue
         m, cs = st["m"], st["cs"]
+        if m is not None:
+            m -= sum(1 for i in failing if i < m)      # the spec lists the chunks of the calls that open a stream
         if m is None or m >= len(want):
             out.append(("delivered", "stream %d has no play call" % k))
             continue
@@ -1305,8 +1445,7 @@ def spec_problems(c, io, drv):
         # carries the audio cut there)
         full = want[m]
         if st["fail"]:
-            plays = [x for x in full_script(c) if x[0] == "play"]
-            full = want[m][:len(audio_of(c, m, plays[m])) // cs]
+            full = want[m][:len(audio_of(c, st["m"], plays_all[st["m"]])) // cs]
         if w != want[m][:len(w)]:
             out.append(("delivered", "stream %d received %r, not a prefix of %r" % (k, w, want[m])))
         elif (k < len(io["alive"]) and not io["alive"][k] and not io["halting"][k] and w != full
@@ -1331,10 +1470,16 @@ def spec_problems(c, io, drv):
     if io["terminates"] > 1:
         out.append(("terminate-count", "terminate called %d times" % io["terminates"]))
     closed = False
+    nplay = -1
     for e in io["log"]:
+        if e[0] == "play":
+            nplay += 1
         if e[0] == "close":
             if e[1] != "ok":
-                out.append(("close-raises", e[1]))
+                # a backend whose terminate() raises: the close() that terminates it lets that error out
+                # (theorem raising_terminate_changes_nothing: everything else is as if it had returned)
+                if not (termfail and not closed and e[1] == "OTHER:OSError"):
+                    out.append(("close-raises", e[1]))
                 closed = True
                 continue
             closed = True
@@ -1345,6 +1490,10 @@ def spec_problems(c, io, drv):
                 out.append(("alive-after-close", "player threads alive when close returned: %r" % alive))
         elif e[0] == "play" and closed and e[1] != "RuntimeError":
             out.append(("play-after-close", "play after close gave %r" % e[1]))
+        elif e[0] == "play" and nplay in failing and not closed:
+            # the backend's pa.open raises for this call: play lets that error out
+            if e[1] != "OTHER:OSError":
+                out.append(("open-failure-swallowed", "play whose pa.open raises gave %r" % e[1]))
         elif e[1] not in ("ok", "RuntimeError"):
             out.append(("call-raises", "%s raised %s" % (e[0], e[1])))
     if closed and io["outcome"] == "done":
@@ -1356,6 +1505,10 @@ def spec_problems(c, io, drv):
             out.append(("threads-left", "_threads not empty after close"))
         if any(st["state"] != "closed" for st in io["streams"]):
             out.append(("open-after-close", "a device stream is not closed at the end of the run"))
+        if any(st.get("input") and st["closes"] != 1 for st in io["streams"]):
+            out.append(("open-after-close", "a recording's device stream was not closed exactly once"))
+        if io.get("recordings"):
+            out.append(("recordings-left", "_recordings not empty after close"))
     if io["outcome"] in ("deadlock", "budget") or str(io["outcome"]).startswith("INFRA"):
         cur = _current_cmd(c, io)
         if cur is not None and cur[0] == "close":
@@ -1386,9 +1539,31 @@ def model_problems(c, io, drv):
     if ilog != m["log"]:
         out.append("log: impl %r model %r" % (ilog, m["log"]))
     ms = m["streams"]
-    # the model creates the player record at the lock acquire of play, the impl opens the
-    # device stream two operations later: compare the streams that exist on the impl side
-    for k, st in enumerate(io["streams"]):
+    if is_mix(c):
+        # device streams by index: a player's (model: `six`) or a recording's
+        by_six = {s["six"]: s for s in ms if s["opened"]}
+        recs = {r["six"]: r for r in m["recs"]}
+        for k, st in enumerate(io["streams"]):
+            if st.get("input"):
+                r = recs.get(k)
+                if r is None:
+                    out.append("input stream %d unknown to the model" % k)
+                elif st["closes"] != r["closes"] or (st["state"] == "closed") != (r["closes"] == 1) or st["frames"] != r["cs"]:
+                    out.append("input stream %d closes/state/chunk size: impl %s/%s/%s model %s/%s" % (
+                        k, st["closes"], st["state"], st["frames"], r["closes"], r["cs"]))
+            else:
+                s_ = by_six.get(k)
+                if s_ is None:
+                    out.append("stream %d unknown to the model" % k)
+                elif st["written"] != s_["written"] or st["state"] != s_["state"]:
+                    out.append("stream %d written/state: impl %r/%s model %r/%s" % (
+                        k, st["written"], st["state"], s_["written"], s_["state"]))
+        if len(io["streams"]) != len(by_six) + len(recs):
+            out.append("device streams: impl %d model %d players + %d recordings" % (len(io["streams"]), len(by_six), len(recs)))
+        if io.get("ghosts") != m["ghosts"] or io.get("recordings") != m["recordings"]:
+            out.append("thread objects never started / _recordings: impl %s/%s model %s/%s" % (
+                io.get("ghosts"), io.get("recordings"), m["ghosts"], m["recordings"]))
+    for k, st in enumerate(io["streams"] if not is_mix(c) else []):
         if k >= len(ms):
             out.append("stream %d unknown to the model" % k)
             break
@@ -1399,7 +1574,7 @@ def model_problems(c, io, drv):
     for k, al in enumerate(io["alive"]):
         if k < len(ms) and (al != ms[k]["alive"] or io["halting"][k] != ms[k]["halting"]):
             out.append("thread %d alive/halting: impl %s/%s model %s/%s" % (k, al, io["halting"][k], ms[k]["alive"], ms[k]["halting"]))
-    if [s for s in ms[len(io["streams"]):] if s["state"] != "unopened"]:
+    if not is_mix(c) and [s for s in ms[len(io["streams"]):] if s["state"] != "unopened"]:
         out.append("model has more opened streams than the impl")
     if io["terminates"] != m["terminates"] or io["finished"] != m["finished"] or io["threads"] != len(m["threads"]):
         out.append("terminates/finished/threads: impl %s/%s/%s model %s/%s/%s" % (
@@ -1435,10 +1610,9 @@ def classify(c, io, drv):
         j = io.get("aborted")
         fl = drv["model"].get("finishes_later", [])
         if (j is not None and io["log"][-1][1] == "TypeError" and j < len(fl) and fl[j] and not any(fl[:j])):
-            # the model predicts exactly this call as the first one that finishes (closes) a recording
-            # stream which is not the oldest one still in _recordings
-            return ("rec:%s-raises-TypeError:finishes-a-recording-that-is-not-the-oldest-active-one" % io["log"][-1][0]
-                    + ("" if agrees else ":MODEL-DISAGREES"))
+            # the model names exactly this call as the first one that finishes (closes) a recording
+            # stream which is not the oldest one still in _recordings: D26 (fixed by c60d4c5) is back
+            return "rec:%s-raises-TypeError:finishes-a-recording-that-is-not-the-oldest-active-one" % io["log"][-1][0]
         return "rec:" + sp[0][0] + ("" if agrees else ":MODEL-DISAGREES")
     sp = spec_problems(c, io, drv)
     agrees = not model_problems(c, io, drv)
@@ -1520,7 +1694,8 @@ def tally(eng, c, io):
         eng.count("stream_final_state", st["state"])
     if io.get("outcome") == "deadlock":
         eng.count("deadlock_pending", io["final"])
-    eng.count("granularity", "fine (every pull is a step)" if is_fine(c) else "coarse (synchronisation + backend)")
+    if not is_mix(c):
+        eng.count("granularity", "fine (every pull is a step)" if is_fine(c) else "coarse (synchronisation + backend)")
     sh = shape_of(c)
     eng.count("shape.chunk_size", "omitted (chunks.size)" if sh["cs_how"] == "default" else "keyword")
     eng.count("shape.rate", "omitted (44100)" if sh["rate"] is None else "keyword")
@@ -1538,6 +1713,21 @@ def tally(eng, c, io):
             eng.count("fault.backend_write", "raised after %d writes" % st["write_fault"] if st["write_failed"] else "armed, never reached")
     if is_fine(c):
         tally_fine(eng, c, io)
+    if is_mix(c):
+        eng.count("granularity", "mixed histories (recordings / failing pa.open / raising terminate with players)")
+        nrec = sum(1 for st in io.get("streams", []) if st.get("input"))
+        eng.count("mix.recordings", nrec)
+        eng.count("mix.open_failures", io.get("ghosts", 0))
+        eng.count("mix.terminate_raises", bool((c.get("faults") or {}).get("terminate")))
+        for e in io.get("log", []):
+            if e[0] == "close" and e[1] == "OTHER:OSError":
+                eng.count("mix.close", "let the error of terminate() out")
+        ops = [lab for lab in io.get("own", []) if lab]
+        # was a recording closed by close() while a player thread was still alive?
+        for i, lab in enumerate(ops):
+            if lab.endswith(".close") and io["chosen"][i] == 0:
+                pend = io["steps"][i].split("|")[1].split(",")
+                eng.count("mix.recording_closed_by_close", "some player thread still alive" if len(pend) > 1 else "no player thread alive")
 
 
 def fill_profile(io):
